@@ -182,6 +182,11 @@ def table_laws(sx, fields, cls='Table'):
                 _expect(sx, tb, (keyt[0], keyt[1]), doms, cells, f'partial-2{list(combo)}')
                 _expect(sx, tb, (keyt[0], Ellipsis, keyt[2]), doms, cells, f'k-ellipsis-k{list(combo)}')
                 _expect(sx, tb, (Ellipsis, keyt[1], keyt[2]), doms, cells, f'ellipsis-k-k{list(combo)}')
+            # an ellipsis that stands for zero fields (one key per field is already there), as numpy allows
+            _expect(sx, tb, keyt + (Ellipsis,), doms, cells, f'full-key-then-empty-ellipsis{list(combo)}')
+            _expect(sx, tb, (Ellipsis,) + keyt, doms, cells, f'empty-ellipsis-then-full-key{list(combo)}')
+            if n >= 2:
+                _expect(sx, tb, keyt[:1] + (Ellipsis,) + keyt[1:], doms, cells, f'empty-ellipsis-inside-full-key{list(combo)}')
             if n >= 2:
                 _expect(sx, tb, (Ellipsis, keyt[-1]), doms, cells, f'ellipsis-last{list(combo)}')
                 _expect(sx, tb, (keyt[0], Ellipsis), doms, cells, f'first-ellipsis{list(combo)}')
